@@ -437,6 +437,44 @@ def case_helper(ctx, res, p):
                         detail={"max_abs_dev": float(np.max(np.abs(fa - fb)))}, signature=f"C18:helper-differs:{est}")
 
 
+def case_times(ctx, res, p):
+    """Time points are data too: offered alone to a bound time-sensitive estimator they must be the bound ones (any container
+    form), anything else is refused with ValueError and leaves the estimator as it was.  (Outside the Lean alphabet: test.)"""
+    import jax.numpy as jnp
+    cname = p["config"]
+    est, kw, none_attrs, needs_y = config(cname)
+    ref = reference(cname)
+    Xt = np.asarray(data((est, "P")), float)
+    X, t = Xt[:, :-1], Xt[:, -1]
+    res.case(("times", cname), True, {"op": "times", "config": cname})
+    with warnings.catch_warnings():
+        warnings.simplefilter("ignore")
+        e = make(est, kw)
+        e.fit(jnp.asarray(X), jnp.asarray(t))
+        fitted0 = np.asarray(e.log_density_x, float).tobytes()
+        same = [t.copy(), t.reshape(-1, 1), t.tolist(), jnp.asarray(t)]
+        for i, ts in enumerate(same):
+            try:
+                [e.fit, e.fit_predict, lambda times: e.prepare_inference(None, times=times)][i % 3](times=ts)
+            except Exception as ex:  # noqa
+                res.oracle_fail(f"the bound time points offered again ({type(ts).__name__}) are refused: {type(ex).__name__}", p,
+                                signature="C18:same-times-refused")
+        other = [t + 1.0, t[::-1].copy(), t[:5], np.where(np.arange(len(t)) == 3, t + 1e-9, t)]
+        for i, ts in enumerate(other):
+            call = [e.fit, e.fit_predict, lambda times: e.prepare_inference(None, times=times)][i % 3]
+            try:
+                call(times=ts)
+                res.oracle_fail("different time points offered to a bound estimator are not refused (silently ignored)", p,
+                                detail={"variant": i}, signature="C18:foreign-times-accepted")
+            except ValueError:
+                pass
+            except Exception as ex:  # noqa
+                res.oracle_fail(f"different time points offered to a bound estimator raise {type(ex).__name__}", p,
+                                signature="C18:foreign-times-error")
+        if np.asarray(e.log_density_x, float).tobytes() != fitted0:
+            res.oracle_fail("fitted values changed by calls that only offered time points", p, signature="C18:times-state")
+
+
 def case_stale(ctx, res, p):
     """A predictor built from one latent state must not survive a later inference: after process_inference on a hand-made
     latent vector (documented override) a subsequent fit / run+process ends with the one-shot fitted values AND predictor.
@@ -566,7 +604,8 @@ def case_glue(ctx, res, p):
 
 def run_case(ctx, res, p):
     return {"history": case_history, "subset": case_subset, "helper": case_helper,
-            "pipeline": case_pipeline, "glue": case_glue, "stale": case_stale}[p["op"]](ctx, res, p)
+            "pipeline": case_pipeline, "glue": case_glue, "stale": case_stale,
+            "times": case_times}[p["op"]](ctx, res, p)
 
 
 def model_legal(ctx, cname, ops):
@@ -639,6 +678,8 @@ def run(ctx, res):
         run_case(ctx, res, {"op": "subset", "config": "T-auto", "subset": S})
     for c_, v_ in (("D-full", "fit"), ("D-sparse", "run+process"), ("T-full", "fit"), ("M-full", "fit"), ("D-sparse", "fit_predict")):
         run_case(ctx, res, {"op": "stale", "config": c_, "variant": v_})
+    for c_ in ("T-full", "T-sparse"):
+        run_case(ctx, res, {"op": "times", "config": c_})
     glue_plan = [("D", {}), ("D", {"landmarks": True}), ("D", {"landmarks": True, "gp_type": "sparse_nystroem", "rank": 3}),
                  ("D", {"gp_type": "full_nystroem", "rank": 0.9, "ls_factor": 2.0}), ("T", {}), ("T", {"normalize": True}),
                  ("T", {"normalize": True, "landmarks": True}), ("T", {"normalize": [4.0, 9.0, 6.0]}), ("T", {"landmarks": True, "gp_type": "fixed"}), ("M", {})]
